@@ -91,8 +91,14 @@ pub fn run(ctx: &mut RunCtx) -> i32 {
         ctx.shards,
         cases,
         4000,
-        |_shard| {
-            let cfg = cfg.clone();
+        |shard| {
+            let mut cfg = cfg.clone();
+            // a quarter of the shards place variables in split-port cartridge RAM (an operand then
+            // has two spellings, which the optimizer's bookkeeping must treat as one location)
+            if shard % 4 == 3 {
+                cfg.split_permille = 300;
+                cfg.split_qual = if shard % 8 == 3 { crate::ast::MemQual::Superchip } else { crate::ast::MemQual::Bank(1) };
+            }
             // opt: 1 (90 %), 2 or 3 (10 %): the extra level that is compared besides -O1
             pbt::strategy(move |g| sem::gen_case(g, &cfg, n_inits, &[1, 1, 1, 1, 1, 1, 1, 1, 1, 1, 1, 1, 1, 1, 1, 1, 1, 1, 2, 3], false))
         },
